@@ -12,6 +12,9 @@ pub mod c14;
 pub mod c15;
 pub mod c16;
 pub mod c17;
+pub mod c18;
+pub mod c19;
+pub mod c20;
 #[cfg(feature = "jit")]
 pub mod pair;
 #[cfg(feature = "jit")]
@@ -41,6 +44,9 @@ pub fn registry() -> Vec<Monitor> {
     mon!("c15", c15),
     mon!("c16", c16),
     mon!("c17", c17),
+    mon!("c18", c18),
+    mon!("c19", c19),
+    mon!("c20", c20),
   ];
   #[cfg(feature = "jit")]
   {
